@@ -706,8 +706,12 @@ class Exec:
         st.env_head = env_head
         st.head_heap = self.heap.copy()
         evH = SpecEval(V, self.pkg, env_head, self.heap, old=self.top_entry_heap(), loop_old=(entry_heap, env_entry))
+        hb_ = len(V.hyps)
         for k, (lab, ast, txt) in enumerate(lc['invariant']):
             self.hyp(evH.boolean(ast))
+        if self.top and lc['invariant']:
+            V.assumption_points = getattr(V, 'assumption_points', [])
+            V.assumption_points.append(('invariants of loop %d assumed at its head' % st.ordinal, self.reach, V.cur_block, hb_, len(V.hyps), None))
         if lc['decreases'] is not None:
             st.variant = evH.ev(lc['decreases'][0]).t
         else:
